@@ -9,6 +9,31 @@ CHECKS = {
    text="Every word sequence up to the bound over an 11-word alphabet (all operator spellings, parentheses, a nullary test, an argument-taking test, an action) is parsed by the real parser and by an independent recursive-descent recogniser; acceptance and the tree must agree on every one. Exhaustive within the bound, so every dangling operator / unbalanced parenthesis / leftover-word junction of that size is covered.",
    note="Trusted: the reference grammar in harness/speclib/src/grammar.rs (self-validated each run by a counting recurrence and a print/parse round trip); words joined by one space.",
    design="§4 C01"),
+ "C05": dict(level=MC,
+   technique="bounded exhaustive enumeration of (keyword, argument member / single-character corruption / missing argument / glued suffix / mangled keyword) x context, real parser vs text-level reference parser",
+   text="For all 55 vocabulary keywords, every member of a boundary-rich menu of its argument language, every single-character corruption of each member at every position, every missing-argument form, and the complete keyword x keyword glue matrix are parsed by the real parser and by an independent text-level reference (word splitting, vocabulary table, argument languages, tree). Node, argument values, embedding in the surrounding tree and rejection must agree on every input.",
+   note="Trusted: vocabulary table and argument languages of harness/speclib/src/textspec.rs. Inputs in the unspecified classes of DESIGN.md §2.3 are skipped and counted. One known finding (glued tokens).",
+   design="§4 C05"),
+ "C06": dict(level=MC,
+   technique="deviation-bounded exhaustive exploration (0,1,2 spelling deviations at every site) over all grammar sentences up to a size; metamorphic oracle against the canonical spelling",
+   text="Every sentence of the operator grammar up to the bound (5 kinds of primary) is rendered canonically and with every choice of up to two simultaneous insignificant spelling deviations (blank kind/amount at each gap and at both ends, -a/-and/implicit, -o/-or, redundant parentheses spaced/tight/double, quoting style of string arguments) plus all-sites-at-once variants; options and tree must be identical to the canonical spelling's. All blank-only inputs up to length 4 must equal -true.",
+   note="Trusted: the list of spelling differences find defines as insignificant (DESIGN.md §4 C06); quoting of numeric arguments is never varied.",
+   design="§4 C06"),
+ "C13": dict(level=MC,
+   technique="bounded exhaustive insertion of option words at every word boundary of 24 base expressions; real parser vs reference last-wins/leading-run/-true model; thread argument read back from the emitted scan call",
+   text="Every insertion of up to 2 (thorough: 3, plus all leading runs of 4) option words at every word boundary of 24 base expressions is parsed by the real parser and the text-level reference: returned options must be the last-wins fold, the tree must be the base with non-leading options read as -true and no option node, and after compile the scan call's fifth argument must be the requested thread count or the runtime default.",
+   note="Trusted: reference option semantics in textspec.rs; Scheme reader in speclib/src/scm/reader.rs. -maxdepth/-mindepth may be refused with an error.",
+   design="§4 C13"),
+ "C14": dict(level=MC,
+   technique="explicit-state BFS over format strings (every string up to length 5/6 over 16 symbols), real element list vs independent scanner",
+   text="Every format string up to the length bound over a 16-symbol alphabet containing the percent sign, backslash, braces, colon, digits (octal and non-octal) and directive/escape letters, plus every documented directive and escape alone and in context, is parsed through -printf and the returned element list compared with an independent scanner of the mini-language (after merging self-standing backslashes into text); empty or adjacent literals are violations; an undocumented directive must make the input an error.",
+   note="Trusted: directive/escape tables and the three-digit octal rule in textspec.rs::format. Unspecified classes (1-2 digit octal, undocumented time selector, flags/width) are skipped and counted.",
+   design="§4 C14"),
+ "C18": dict(level=MC,
+   technique="bounded exhaustive product (prefix x keyword x argument position x missing/invalid word x suffix; base x unknown word x suffix), textual oracle on the error's Display output",
+   text="For every argument-taking keyword and argument position: the argument missing at the end and before a closing parenthesis, and every word of a menu that is invalid from its first character for that argument language, under 4 prefixes and 3 suffixes; plus unknown words at every position of 6 bases. The error text must be non-empty, name the keyword, quote the offending word (empty when missing) and quote nothing that is not in the input.",
+   note="A word counts as quoted between a pair of backquote, quote or double-quote characters. One known finding (keyword-prefixed unknown words).",
+   design="§4 C18"),
 }
 PENDING = {f"C{n:02d}": "check not built yet (work in progress; see DESIGN.md §7 order of work)" for n in range(1, 21)}
 
